@@ -166,6 +166,13 @@ impl VxFilterSets {
     #[verifier::external_body]
     pub fn vx_push_by_kind(&mut self, f: Filter) { unimplemented!() }
 }
+// Vec::with_capacity(n): panics on capacity overflow and asks the allocator for n elements up front: an obligation "bounded, not the
+// client's number" (the same bound as for the FLST pre-allocation, C03: at most 2^20 elements)
+#[verifier::external_body]
+pub fn vx_vec_with_capacity_u32(n: usize) -> (r: Vec<u32>)
+    requires n <= 0x10_0000, // O:cmd.search.prealloc_bounded
+    ensures r@.len() == 0,
+{ Vec::with_capacity(n) }
 #[verifier::external_body]
 pub fn match_filters(msg: &VxMsg, filters: &VxFilterSets) -> (r: bool) { unimplemented!() }
 pub type DltMessageIndexType = u32;
@@ -189,6 +196,8 @@ pub open spec fn stream_wf(stream: &StreamContext, n_all: int) -> bool {
 //@   sub R12 `if filter_struct.enabled {` => `if filter_struct.vx_enabled() {`
 //@   sub R12 `filters[filter_struct.kind].push(filter_struct);` => `filters.vx_push_by_kind(filter_struct);`
 //@   sub R12 `let msg: &adlt::dlt::DltMessage = &all_msgs[msg_idx];` => `let msg: &VxMsg = &all_msgs[msg_idx];`
+//@   sub R11 `Vec::with_capacity(` => `vx_vec_with_capacity_u32(` ?
+//@   sub R3 `std::cmp::min(` => `vx_min_usize(` ?
 //@   spec
 //@|    requires
 //@|        stream_wf(stream, all_msgs@.len() as int),
@@ -218,6 +227,16 @@ pub fn vx_json_from_str(s: &str) -> (r: Result<VxJsonValue, VxErr>) { unimplemen
 impl VxJsonValue {
     #[verifier::external_body]
     pub fn as_object(&self) -> (r: Option<&VxJsonMap>) { unimplemented!() }
+}
+impl VxJsonMap {
+    pub uninterp spec fn has(&self, key: &str) -> bool;
+    // `map[key]` (serde_json::Map: Index panics when the key is missing)
+    #[verifier::external_body]
+    pub fn vx_index(&self, key: &str) -> (r: &VxJsonValue) requires self.has(key) { unimplemented!() }
+}
+impl VxJsonValue {
+    #[verifier::external_body]
+    pub fn as_str(&self) -> (r: Option<&str>) { unimplemented!() }
 }
 #[verifier::external_body]
 pub fn vx_json_get_str<'a>(m: &'a VxJsonMap, key: &str) -> (r: Option<&'a str>) { unimplemented!() }
@@ -317,15 +336,16 @@ pub assume_specification<T> [std::option::Option::<T>::replace] (o: &mut std::op
 //@   sub R11 `what.parse::<DltMessageIndexType>() .unwrap_or_default()` => `vx_parse_u32_or_default(what)`
 //@   sub R11 `what .parse::<u64>() .unwrap_or_default()` => `vx_parse_u64_or_default(what)`
 //@   sub R12 `serde_json::from_str::<serde_json::Value>(params)` => `vx_json_from_str(params)` x2
-//@   sub R12 `params.get("cmd").and_then(serde_json::Value::as_str)` => `vx_json_get_str(params, "cmd")`
-//@   sub R12 `params.get("name").and_then(serde_json::Value::as_str)` => `vx_json_get_str(params, "name")`
-//@   sub R12 `params .get("params") .and_then(serde_json::Value::as_object)` => `vx_json_get_object(params, "params")`
-//@   sub R12 `params .get("cmdCtx") .and_then(serde_json::Value::as_object)` => `vx_json_get_object(params, "cmdCtx")`
-//@   sub R12 `plugin_state .value .as_object() .and_then(|s| s.get("name")) .and_then(serde_json::Value::as_str)` => `vx_plugin_state_name(&plugin_state)`
+//@   sub R12 `params.get("cmd").and_then(serde_json::Value::as_str)` => `vx_json_get_str(params, "cmd")` ?
+//@   sub R12 `params.get("name").and_then(serde_json::Value::as_str)` => `vx_json_get_str(params, "name")` ?
+//@   sub R12 `params .get("params") .and_then(serde_json::Value::as_object)` => `vx_json_get_object(params, "params")` ?
+//@   sub R12 `params .get("cmdCtx") .and_then(serde_json::Value::as_object)` => `vx_json_get_object(params, "cmdCtx")` ?
+//@   sub R12 `plugin_state .value .as_object() .and_then(|s| s.get("name")) .and_then(serde_json::Value::as_str)` => `vx_plugin_state_name(&plugin_state)` ?
 //@   sub R12 `std::sync::atomic::Ordering::Relaxed` => `VxOrdering::Relaxed`
 //@   sub R12 `std::sync::mpsc::TryRecvError::` => `VxTryRecvError::` x2
 //@   sub R12 `std::thread::sleep(std::time::Duration::from_millis(10));` => `vx_sleep_ms(10);`
 //@   sub R12 `let r = apply_command(` => `let r = vx_call_apply_command(apply_command,`
+//@   sub R12 `params[__]` => `params.vx_index($1)` ?
 //@   sub R11 `window_text.split_once(',').map(|(s, e)| { ( s.parse::<usize>().unwrap_or(0), e.parse::<usize>().unwrap_or(0), ) })` => `vx_parse_window(window_text)`
 //@   sub R11 `search_text.split_once('=')` => `vx_split_once(search_text, '=')`
 //@   sub R11 `params.split_once(' ')` => `vx_split_once(params, ' ')`
